@@ -424,6 +424,14 @@ def correspond(ctx):
             cases.append((d["op"], OPS[d["op"]][0], ops))
             ctx.count("corpus")
     cases += list(gen_cases(ctx, pool, exp_safe))
+    # EXP by a small constant under non-default --smt-exp-by-const (the unrolled multiplication chain): every exponent
+    # 0..k+1 with a symbolic base in each word representation, k in {3, 6}
+    sevm_k = {k: sevmdrv.mk_sevm(smt_exp_by_const=k) for k in (3, 6)}
+    for k in (3, 6):
+        for e in range(0, k + 2):
+            for rep in ("t", "tz", "ti"):
+                ops = [Operand(rep, ctx.rng.choice([2, 3, 7, W - 1, ctx.rng.randrange(W)]), 0, ctx.rng), Operand("i", e, 1, ctx.rng)]
+                cases.append((f"EXP@{k}", OPS["EXP"][0], ops))
 
     lines, metas = [], []
     for name, opcode, ops in cases:
@@ -468,11 +476,15 @@ def correspond(ctx):
                 elif o.rep == "bl":
                     d.append(1 if e[n + "a"] < e[n + "b"] else 0)
             dens.append(d)
-        impl = run_impl(sevm, args, opcode, ops, envs)
+        if "@" in name:
+            sv, av = sevm_k[int(name.split("@")[1])]
+            impl = run_impl(sv, av, opcode, ops, envs)
+        else:
+            impl = run_impl(sevm, args, opcode, ops, envs)
         envtxt = " | ".join(",".join(f"{k}={v:x}" for k, v in e.items()) for e in envs)
         lines.append(f"op {name} {' '.join(o.tok for o in ops)} | {envtxt}")
         for d in dens:
-            lines.append(f"spec {name} {' '.join(f'{x:x}' for x in d)}")
+            lines.append(f"spec {name.split('@')[0]} {' '.join(f'{x:x}' for x in d)}")
         metas.append((name, ops, envs, dens, impl))
 
     replies = ctx.lean("Word").ask(lines)
@@ -534,9 +546,9 @@ def replay(ctx, data):
         return not prompt_probe(ctx)
     if r.get("kind") == "singleton-probe":
         return not singleton_probe(ctx, "start")
-    sevm, args = sevmdrv.mk_sevm()
+    sevm, args = sevmdrv.mk_sevm(**({"smt_exp_by_const": int(r["op"].split("@")[1])} if "@" in r["op"] else {}))
     ops = [Operand(rep, int(v, 16), j, ctx.rng) for j, (rep, v) in enumerate(r["operands"])]
     envs = [{k: int(v, 16) for k, v in e.items()} for e in r["envs"]]
-    impl = run_impl(sevm, args, OPS[r["op"]][0], ops, envs)
+    impl = run_impl(sevm, args, OPS[r["op"].split("@")[0]][0], ops, envs)
     print("observed:", impl, "expected:", r["expected_spec"])
     return impl[0] == "err" or [hex(v) for v in impl[2]] != r["expected_spec"] or not all(impl[3])
